@@ -82,28 +82,60 @@ def _cargo(args, target, extra_env=None, cwd=None, toolchain=None, rustflags="--
     return r
 
 
+HOOKS_COMPILED = True
+
+
 def build_cicada(kind="debug"):
     """Build the cicada binary from /repo's working tree with hooks on.
-    kind: debug | nochecks (overflow checks + debug assertions off) | asan"""
-    lk = _lock("cargo-" + kind)
+    kind: debug | nochecks (overflow checks + debug assertions off) | asan
+    If the tree builds without the hooks but not with them (a change to a function the hook module
+    re-exports), the binary is built with the hooks off: the process-level observers do not need them
+    (only the in-process harness, the step budget and the wait-status trace do)."""
+    global HOOKS_COMPILED
+    try:
+        return _build_cicada(kind, True)
+    except InfraError as e:
+        try:
+            path = _build_cicada(kind, False)
+        except InfraError:
+            raise e
+        if HOOKS_COMPILED:
+            print("NOTE: /repo builds only with --cfg cicada_verif off (hook module out of date?): %s" % str(e)[-300:].replace("\n", " "))
+            print("NOTE: running the process-level monitors on a build without hooks")
+        HOOKS_COMPILED = False
+        return path
+
+
+def _build_cicada(kind, hooks):
+    cfg = "--cfg cicada_verif" if hooks else ""
+    sfx = "" if hooks else "-nh"
+    lk = _lock("cargo-" + kind + sfx)
     try:
         if kind == "debug":
-            _cargo(["build", "--offline", "--bin", "cicada"] + DEP_OPT, "t-bin")
-            return os.path.join(CACHE, "t-bin", "debug", "cicada")
+            _cargo(["build", "--offline", "--bin", "cicada"] + DEP_OPT, "t-bin" + sfx, rustflags=cfg)
+            return os.path.join(CACHE, "t-bin" + sfx, "debug", "cicada")
         if kind == "nochecks":
-            _cargo(["build", "--offline", "--bin", "cicada"] + DEP_OPT, "t-rel",
+            _cargo(["build", "--offline", "--bin", "cicada"] + DEP_OPT, "t-rel" + sfx,
                    {"CARGO_PROFILE_DEV_OVERFLOW_CHECKS": "false",
                     "CARGO_PROFILE_DEV_DEBUG_ASSERTIONS": "false",
-                    "CARGO_PROFILE_DEV_OPT_LEVEL": "1"})
-            return os.path.join(CACHE, "t-rel", "debug", "cicada")
+                    "CARGO_PROFILE_DEV_OPT_LEVEL": "1"}, rustflags=cfg)
+            return os.path.join(CACHE, "t-rel" + sfx, "debug", "cicada")
         if kind == "asan":
             _cargo(["build", "--offline", "--bin", "cicada", "--target", "x86_64-unknown-linux-gnu"],
-                   "t-asan", toolchain="+nightly",
-                   rustflags="--cfg cicada_verif -Zsanitizer=address -Cforce-frame-pointers=yes")
-            return os.path.join(CACHE, "t-asan", "x86_64-unknown-linux-gnu", "debug", "cicada")
+                   "t-asan" + sfx, toolchain="+nightly",
+                   rustflags=cfg + " -Zsanitizer=address -Cforce-frame-pointers=yes")
+            return os.path.join(CACHE, "t-asan" + sfx, "x86_64-unknown-linux-gnu", "debug", "cicada")
         raise InfraError("unknown build kind " + kind)
     finally:
         lk.close()
+
+
+def try_build_harness():
+    """(path or None, reason): the in-process harness needs the hook module; without it the other layers still run"""
+    try:
+        return build_harness(), None
+    except InfraError as e:
+        return None, str(e)[-400:].replace("\n", " ")
 
 
 def build_harness():
